@@ -59,6 +59,7 @@ func (m *Mutex) Held() bool { return m.held }
 
 type RWMutex struct {
 	w       bool
+	wmu     bool // a writer has announced itself (Go: holds rw.w and has made readerCount negative): new readers wait
 	readers int
 	vc      csched.VC // released by writers
 	rvc     csched.VC // released by readers
@@ -66,10 +67,18 @@ type RWMutex struct {
 
 func (m *RWMutex) Lock() {
 	if s := csched.S; csched.Active() {
-		s.Point(func() bool { return !m.w && m.readers == 0 }, "RWMutex.Lock")
+		// as in sync.RWMutex: the writer first announces itself, which blocks readers that
+		// arrive later (also a second RLock by a goroutine that already holds one), then
+		// waits for the readers that are inside
+		s.Point(func() bool { return !m.wmu }, "RWMutex.Lock")
+		m.wmu = true
+		if m.readers > 0 {
+			s.Point(func() bool { return m.readers == 0 }, "RWMutex.Lock(wait for readers)")
+		}
 		csched.Acquire(m.vc)
 		csched.Acquire(m.rvc)
 	}
+	m.wmu = true
 	m.w = true
 }
 
@@ -85,11 +94,12 @@ func (m *RWMutex) Unlock() {
 		return
 	}
 	m.w = false
+	m.wmu = false
 }
 
 func (m *RWMutex) RLock() {
 	if s := csched.S; csched.Active() {
-		s.Point(func() bool { return !m.w }, "RWMutex.RLock")
+		s.Point(func() bool { return !m.wmu }, "RWMutex.RLock")
 		csched.Acquire(m.vc)
 	}
 	m.readers++
